@@ -100,11 +100,11 @@ type DItem struct {
 	Period int64    `json:"period_s,omitempty"`
 	Scopes []string `json:"scopes,omitempty"`
 	// limit
-	Ops    []string `json:"ops,omitempty"`
-	Option string   `json:"opt,omitempty"`
-	Filter *DFilter `json:"flt,omitempty"`
-	Feature string  `json:"feature,omitempty"`
-	Rate   string   `json:"rate,omitempty"`
+	Ops     []string `json:"ops,omitempty"`
+	Option  string   `json:"opt,omitempty"`
+	Filter  *DFilter `json:"flt,omitempty"`
+	Feature string   `json:"feature,omitempty"`
+	Rate    string   `json:"rate,omitempty"`
 	// projector
 	Sync    bool     `json:"sync,omitempty"`
 	Events  []DRule  `json:"events,omitempty"`
